@@ -18,7 +18,7 @@ RULE = ("cases from rng(seed, 8, 0, i): relation = i mod 7 of " + ", ".join(RELS
         "distinct = fingerprint(spec, relation, K); non-trivial = the relation changed the representation (e.g. at least one quaternion negated / id changed) and the "
         "optimizer moved some vertex by > 1e-6.")
 REQ = ["eval:chi2-representation-invariant", "eval:result-representation-invariant"] + ["rel:" + r for r in RELS] + [
-    "class:info_cross_terms", "class:info_blockdiag", "class:negated_vertex_quat", "class:negated_measurement_quat", "class:negated_offset_quat", "class:run_to_convergence", "class:fix_first_pose=True", "class:fix_first_pose=False", "class:objects_reused_in_second_graph", "class:rerepresented_graph_through_file"]
+    "class:info_cross_terms", "class:info_blockdiag", "class:negated_vertex_quat", "class:negated_measurement_quat", "class:negated_offset_quat", "class:run_to_convergence", "class:fix_first_pose=True", "class:fix_first_pose=False", "class:objects_reused_in_second_graph", "class:rerepresented_graph_through_file", "class:whole_turns_written_in_place", "class:graph_with_4000+_edges"]
 PLAN = {
     "quick": {"cases": 1400, "soft_s": 90, "min_nontrivial": 400, "require": REQ},
     "thorough": {"cases": 56000, "soft_s": 1500, "min_nontrivial": 12000, "require": REQ},
@@ -104,6 +104,18 @@ def relation_check(ctx, rng, spec, rel, mode, cross, cond_max=1e8):
     ctx.count("rel:" + rel)
     spec2, c, changed, extra_delta, mapping = apply_relation(rng, spec, rel, ctx)
     g, g2 = M.build(spec), M.build(spec2)
+    if rel == "shift_2pi" and rng.random() < 0.5:
+        # the whole turns are written into the stored arrays of otherwise identical objects (no constructor in between)
+        g2 = M.build(spec)
+        for v, sv in zip(g2._vertices, spec2["vertices"]):
+            if sv["kind"] == "se2":
+                v.pose[2] = sv["pose"][2]
+        for e, se in zip(g2._edges, spec2["edges"]):
+            if se.get("est_kind") == "se2":
+                e.estimate[2] = se["est"][2]
+            if se.get("off_kind") == "se2" and se.get("off") is not None:
+                e.offset[2] = se["off"][2]
+        ctx.count("class:whole_turns_written_in_place")
     case = {"graph": {k: v for k, v in spec.items() if k not in ("truth", "truth_by_id")}, "relation": rel, "graph2": {k: v for k, v in spec2.items() if k not in ("truth", "truth_by_id")},
             "mode": mode}
     scene = max(R.tmag(v["kind"], v["pose"]) for v in spec["vertices"])
@@ -314,3 +326,43 @@ def _dataset_case(name, nmax, cross):
 
 
 DATASET_CASES = [_dataset_case("intel", 120, False), _dataset_case("intel", 60, True), _dataset_case("garage", 40, False), _dataset_case("garage", 60, True)]
+
+
+def pinned_big_split(ctx):
+    """A large linear graph (thousands of edges): splitting edges into halves placed far apart in the edge list, and permuting the edge list, must not change the
+    optimum (count-dependent accumulation paths)."""
+    rng = np.random.default_rng(808)
+    nv, ne = 1500, 4400
+    vertices = [{"id": j, "kind": "r2", "pose": [float(x) for x in rng.normal(size=2) * 30], "fixed": j == 0} for j in range(nv)]
+    edges = [{"type": "odo", "ids": [j, j + 1], "info": gen.spd(rng, 2, 5.0).tolist(), "est": [float(x) for x in rng.normal(size=2)], "est_kind": "r2"} for j in range(nv - 1)]
+    while len(edges) < ne:
+        a, b = rng.choice(nv, 2, replace=False)
+        edges.append({"type": "odo", "ids": [int(a), int(b)], "info": gen.spd(rng, 2, 5.0).tolist(), "est": [float(x) for x in rng.normal(size=2) * 3], "est_kind": "r2"})
+    spec = {"vertices": vertices, "edges": edges}
+    split = gen.copy_spec(spec)
+    extra = []
+    for j in rng.choice(len(edges), 300, replace=False):
+        e = split["edges"][int(j)]
+        e["info"] = (np.array(e["info"]) * 0.5).tolist()
+        h = gen.copy_spec(e)
+        if rng.random() < 0.5:
+            h["ids"] = h["ids"][::-1]
+            h["est"] = [-x for x in h["est"]]
+        extra.append(h)
+    split["edges"] = split["edges"] + extra  # the second halves sit thousands of positions later
+    perm = gen.copy_spec(spec)
+    perm["edges"] = [perm["edges"][int(j)] for j in rng.permutation(len(edges))]
+    res = []
+    for sp in (spec, split, perm):
+        g = M.build(sp)
+        r = M.quiet_optimize(g, max_iter=2, tol=0.0)
+        res.append((M.snapshot_poses(g), r.final_chi2))
+    for name, (poses, chi) in zip(("split_edge", "permute_edges"), res[1:]):
+        worst = max(abs(x - y) for p, q in zip(res[0][0], poses) for x, y in zip(p, q))
+        ctx.check("result-representation-invariant", worst <= 1e-7, {"relation": name, "where": "large linear graph"}, {"worst": worst, "n_edges": ne}, {"n_edges": ne})
+        ctx.close("final-chi2-representation-invariant", chi, res[0][1], 1e-8 * abs(res[0][1]), {"relation": name, "where": "large linear graph"}, None, {"n_edges": ne})
+    ctx.count("class:graph_with_4000+_edges")
+    ctx.nontrivial("pinned-big-split")
+
+
+PINNED = PINNED + [pinned_big_split]
